@@ -33,7 +33,8 @@ enum {
   LIBCUCKOO_VH_EMPLACE = 12,
   LIBCUCKOO_VH_ST_NREM = 13,
   LIBCUCKOO_VH_FS_NREM = 14,
-  LIBCUCKOO_VH_ALL_UNLOCK_END = 15
+  LIBCUCKOO_VH_ALL_UNLOCK_END = 15,
+  LIBCUCKOO_VH_BUCKET = 16
 };
 #else
 #define LIBCUCKOO_VERIF_HOOK(kind, obj, a, b)                                 \
